@@ -445,6 +445,12 @@ def run(prog, rep, tier):
                     o = origins(body, [t.args[0].place[0]])
                     okl = any((c.get('def') or '').endswith('BINCODE_MAX_DESERIALIZE') for c in o.consts)
                     if not okl:
+                        # the options may be built by a private helper (`bincode_options()`): look at the call with that helper spliced in
+                        inl_ = inlined_body(prog, body)
+                        if getattr(inl_, 'inlined', 0) and b.idx < len(inl_.blocks) and inl_.blocks[b.idx].term.kind == 'call' and inl_.blocks[b.idx].term.args and inl_.blocks[b.idx].term.args[0].place is not None:
+                            o2 = origins(inl_, [inl_.blocks[b.idx].term.args[0].place[0]])
+                            okl = any((c.get('def') or '').endswith('BINCODE_MAX_DESERIALIZE') for c in o2.consts)
+                    if not okl:
                         rep.ob('R06.4', False, 'R06.4|%s|%s|bincode-limit' % (body.nkey, t.cmethod), 'bincode limit is not BINCODE_MAX_DESERIALIZE', body.loc(b.idx))
             elif k == 'serialized_size':
                 n_sz += 1
